@@ -67,6 +67,9 @@ def run(ctx):
     exported = [(crv_alg[k.curve_name], label, k) for label, k in KC.special_ec_keys(rng)]
     exported += [("EdDSA", "ed25519-pem", OKPKey.import_key(K.key("ed25519").as_pem())), ("RS256", "rsa-pem", RSAKey.import_key(K.key("rsa2048").as_pem())),
                  ("ES256", "p256-generated", ECKey.generate_key("P-256"))]
+    # RSA keys too short for the algorithm's PSS salt (= hash length): refusing to sign is fine, a token is not
+    short = RSAKey.import_key(K.key("rsa1024").as_pem())
+    exported += [("PS512", "rsa1024-short", short), ("PS384", "rsa1024-short", short), ("PS256", "rsa1024-short", short), ("RS512", "rsa1024-short", short)]
     for alg, label, sk in exported:
         public_jwk = sk.as_dict(private=False)
         for kind in (S.KINDS if ctx.tier != "quick" else ("compact", "flat")):
@@ -75,6 +78,9 @@ def run(ctx):
             try:
                 value, _ = S.impl_sign(kind, prot, unprot, payload, sk, {"algorithms": J.ALL_ALGS})
             except Exception as e:  # noqa: BLE001
+                if label.endswith("-short"):
+                    ctx.count("impl-signs-ref-verifies-exported-jwk", (alg, kind, label, "refused"), True, f"{alg}:refused")
+                    continue
                 ctx.report(f"joserfc could not sign with an exported-form key: {err_name(e)}", {"alg": alg, "kind": kind, "key": label}, f"sign-exported:{kind}")
                 continue
             ctx.count("impl-signs-ref-verifies-exported-jwk", (alg, kind, label), True, f"{alg}:{kind}")
